@@ -365,7 +365,8 @@ Proof.
     + simpl. rewrite rl_ra. exact Er.
     + rewrite Hv. eapply hview_released; eauto. left. simpl. rewrite release_tasks. reflexivity.
     + simpl. rewrite rl_fsm, Efs. intros _. right. reflexivity.
-    + simpl. rewrite release_trace. repeat (apply ext_cons; [simpl; auto|]). apply ext_cont_off. exact Hx.
+    + simpl. rewrite release_trace. repeat (apply ext_cons; [simpl; auto|]). apply ext_cont_off.
+      apply ext_cons; [exact I | exact Hx].
 Qed.
 
 Lemma kind_enter_close s s1 t :
@@ -703,7 +704,8 @@ Proof.
     + unfold comp. simpl. fold (comp (release s)). apply release_comp.
     + simpl. apply rl_ra.
     + simpl. apply rl_fsm.
-    + simpl. rewrite release_trace. apply ext_cons; [exact I|]. apply ext_cont_off. constructor.
+    + simpl. rewrite release_trace. apply ext_cons; [exact I|]. apply ext_cont_off.
+      apply ext_cons; [exact I | constructor].
   - (* P_WaitRunFinished *)
     destruct (run_finished s) as [[|]|]; try apply kind_refl.
     eapply kind_free; eauto. simpl. destruct c; simpl in Hc; try discriminate; qev.
